@@ -560,8 +560,9 @@ def u_solver_init():
             c.prove("post(auxiliary):%s-is-exactly-the-wrapper's-tolerance" % k, (lift(v) == tol) if isinstance(v, Sym) else z3.BoolVal(False), prop=None)
         v = opts.get("time_limit")
         c.prove("post:the-time-limit-handed-to-HiGHS-is-the-requested-one", (lift(v) == tl) if isinstance(v, Sym) else z3.BoolVal(False), prop=P)
-        c.prove("post:a-fresh-wrapper-has-not-timed-out-and-has-no-queued-bound-changes",
-                z3.BoolVal(me.did_timeout is False and me._pending_fix_vars == [] and me._pending_fix_vals == [] and me._pending_lb_vars == [] and me._pending_lb_vals == []), prop=P)
+        c.prove("post:a-fresh-wrapper-has-not-timed-out", z3.BoolVal(getattr(me, "did_timeout", None) is False), prop=P)
+        c.prove("post(auxiliary):a-fresh-wrapper-has-no-queued-bound-changes",
+                z3.BoolVal(all(not getattr(me, a, None) for a in ("_pending_fix_vars", "_pending_fix_vals", "_pending_lb_vars", "_pending_lb_vals"))), prop=None)
     st = {}
 
     class SWProxy:
